@@ -33,6 +33,12 @@ def name_atom(term, hdr_size, full_size):
     if term[0] != 't':
         return None
     op = term[1]
+    # the nix wrappers return Result: Err exactly when the libc call reports failure
+    if op == 'discr' and term[2][0][0] == 't' and term[2][0][1] == 'call' and term[2][0][2][0].startswith('nix::'):
+        last = term[2][0][2][0].split('::')[-1]
+        atom = {'open': 'open<0', 'openat': 'open<0', 'read': 'read<0', 'mmap': 'mmap==MAP_FAILED'}.get(last)
+        if atom:
+            return (atom, False)
     cc = common.cmp_const_right(term)
     if cc is not None:
         cop, x, c = cc
